@@ -443,7 +443,42 @@ def install(I):
             return I.binop(st, 'Eq', a, BV.const(a.w, 0), ctx.loc, ctx.fr)
         return I.binop(st, 'Eq', I.binop(st, 'Rem', a, b, ctx.loc, ctx.fr), BV.const(a.w, 0), ctx.loc, ctx.fr)
 
+    def m_checked_next_multiple_of(ctx):
+        """a.checked_next_multiple_of(b): a when b divides it, else a + (b - a % b) if that fits (None for b == 0 or on overflow)"""
+        I, st = ctx.I, ctx.st
+        a, b = ctx.args
+        if b.is_const() and b.value() == 0:
+            return none()
+        if not b.is_const():
+            return I.opaque_call(ctx)
+        rem = I.binop(st, 'Rem', a, b, ctx.loc, ctx.fr)
+        z = I.binop(st, 'Eq', rem, BV.const(a.w, 0), ctx.loc, ctx.fr)
+        outs = []
+
+        def rounded(s_):
+            r2 = I.norm(s_, I.resub(s_, rem))
+            d = I.binop(s_, 'Sub', b, r2, ctx.loc, ctx.fr)
+            if s_.events and s_.events[-1][0] == 'ovf':
+                s_.events.pop()
+            import copy as _copy
+            sub = _copy.copy(ctx)
+            sub.st = s_
+            sub.args = [I.norm(s_, I.resub(s_, a)), d]
+            r = checked('Add')(sub)
+            return r if isinstance(r, list) else [Outcome(s_, 'ret', r)]
+        if z.is_const():
+            return some(a) if z.value() else rounded(st)
+        s2 = st.clone()
+        if I.assume(s2, z.bits[0], 1) and not s2.dead:
+            s2.events.append(('branch', z.bits[0], 1, ctx.loc, ctx.fr.f['name']))
+            outs.append(ctx.ret(some(I.norm(s2, I.resub(s2, a))), s2))
+        if I.assume(st, z.bits[0], 0) and not st.dead:
+            st.events.append(('branch', z.bits[0], 0, ctx.loc, ctx.fr.f['name']))
+            outs += rounded(st)
+        return outs
+
     for t in ('u8', 'u16', 'u32', 'u64', 'usize'):
+        M['core::num::<impl %s>::checked_next_multiple_of' % t] = m_checked_next_multiple_of
         for b in ('Add', 'Sub', 'Mul'):
             M['core::num::<impl %s>::overflowing_%s' % (t, b.lower())] = overflowing(b)
         M['core::num::<impl %s>::abs_diff' % t] = m_abs_diff
@@ -709,8 +744,10 @@ def install(I):
         outs = []
         s2 = st.clone()
         if I.assume(s2, c.bits[0], 0) and not s2.dead:
+            s2.events.append(('branch', c.bits[0], 0, ctx.loc, ctx.fr.f['name']))
             outs.append(ctx.ret(none(), s2))
         if I.assume(st, c.bits[0], 1) and not st.dead:
+            st.events.append(('branch', c.bits[0], 1, ctx.loc, ctx.fr.f['name']))
             outs.append(ctx.ret(some(v)))
         return outs
     M['core::bool::<impl bool>::then_some'] = m_then_some
@@ -834,9 +871,12 @@ def install(I):
         if not c.is_const():
             s2 = st.clone()
             if I.assume(s2, c.bits[0], 0) and not s2.dead:
+                # the test is a branch of the caller like any `if` (rules that read path conditions see it)
+                s2.events.append(('branch', c.bits[0], 0, ctx.loc, ctx.fr.f['name']))
                 outs.append(ctx.ret(none(), s2))
             if not I.assume(st, c.bits[0], 1) or st.dead:
                 return outs
+            st.events.append(('branch', c.bits[0], 1, ctx.loc, ctx.fr.f['name']))
         elif c.value() == 0:
             return none()
         r = call_closure(ctx, clo, [])
@@ -1068,6 +1108,117 @@ def install(I):
             I._store_at(st, ref.loc, ref.path, Struct(ENUMERATE, [inner, BV.const(64, cnt.value() + 1)]))
             return some(Struct('tuple', [cnt, item]))
         return I.opaque_call(ctx)
+    COPIED = '~copied'
+
+    def m_copied(ctx):
+        it = ctx.args[0]
+        if isinstance(it, Struct) and it.name == SLICE_ITER:
+            return Struct(COPIED, [it])
+        return ctx.I.opaque_call(ctx)
+    M['core::iter::Iterator::copied'] = m_copied
+    M['core::iter::Iterator::cloned'] = m_copied
+
+    def _remaining(ctx, ref):
+        """the elements a modelled iterator over a small array still has to yield (values, for a by-value adaptor), or None"""
+        it = deref(ctx, ref) if isinstance(ref, Ref) else ref
+        by_value = False
+        if isinstance(it, Struct) and it.name == COPIED:
+            it, by_value = it.fields[0], True
+        if not (isinstance(it, Struct) and it.name == SLICE_ITER):
+            return None
+        r, pos, n = it.fields
+        items = []
+        for k in range(pos.value(), n.value()):
+            e = Ref(r.loc, r.path + (('idx', BV.const(64, k)),), r.raw)
+            items.append(ctx.I.load(ctx.st, e) if by_value else e)
+        return items
+
+    def _pred_bit(ctx, st, clo, item):
+        """truth of pred(item) as one bit, when the predicate is a pure one-path function of it"""
+        sub = CallCtxView(ctx, st)
+        n_ev = len(st.events)
+        arg = item
+        outs = call_closure(sub, clo, [arg])
+        if outs is None or len(outs) != 1 or outs[0].kind != 'ret' or not isinstance(outs[0].val, BV) or outs[0].val.w != 1:
+            return None
+        if [e for e in outs[0].st.events[n_ev:] if e[0] not in ('icall', 'iret')]:
+            return None
+        return outs[0].val.bits[0]
+
+    def m_iter_search(kind):
+        def f(ctx):
+            I, st = ctx.I, ctx.st
+            items = _remaining(ctx, ctx.args[0])
+            if items is None or len(ctx.args) != 2:
+                return I.opaque_call(ctx)
+            clo = ctx.args[1]
+            if kind in ('any', 'all'):
+                acc = 0 if kind == 'any' else 1
+                for it in items:
+                    # `any`/`all` hand the item itself to the predicate
+                    b = _pred_bit(ctx, st, clo, it)
+                    if b is None:
+                        return I.opaque_call(ctx)
+                    acc = b_or(acc, b) if kind == 'any' else b_and(acc, b)
+                return BV(1, [acc])
+            # find / position: the first element whose predicate holds; one path per candidate while the predicate is undecided
+            outs = []
+            cur = st
+            for k, it in enumerate(items):
+                parg = it
+                if kind == 'find':
+                    # find passes a reference to the item
+                    loc = ('obj', I.fresh('find-item'))
+                    cur.mem[loc] = it
+                    parg = Ref(loc)
+                b = _pred_bit(ctx, cur, clo, parg)
+                if b is None:
+                    return I.opaque_call(ctx)
+                res = some(it if kind == 'find' else BV.const(64, k))
+                if b == 1:
+                    outs.append(ctx.ret(res, cur))
+                    return outs
+                if b == 0:
+                    continue
+                hit = cur.clone()
+                if I.assume(hit, b, 1) and not hit.dead:
+                    hit.events.append(('branch', b, 1, ctx.loc, ctx.fr.f['name']))
+                    outs.append(ctx.ret(res, hit))
+                if not I.assume(cur, b, 0) or cur.dead:
+                    return outs
+                cur.events.append(('branch', b, 0, ctx.loc, ctx.fr.f['name']))
+            outs.append(ctx.ret(none(), cur))
+            return outs
+        return f
+    def m_opt_filter(ctx):
+        """opt.filter(pred): the value when it is Some and pred(&value) holds, one path per verdict"""
+        I, st = ctx.I, ctx.st
+        v, clo = ctx.args
+        if not isinstance(v, Enum):
+            return I.opaque_call(ctx)
+        if v.vname == 'None':
+            return v
+        loc = ('obj', I.fresh('filter-item'))
+        st.mem[loc] = v.fields[0]
+        b = _pred_bit(ctx, st, clo, Ref(loc))
+        if b is None:
+            return I.opaque_call(ctx)
+        if b in (0, 1):
+            return v if b else none()
+        outs = []
+        s2 = st.clone()
+        if I.assume(s2, b, 0) and not s2.dead:
+            s2.events.append(('branch', b, 0, ctx.loc, ctx.fr.f['name']))
+            outs.append(ctx.ret(none(), s2))
+        if I.assume(st, b, 1) and not st.dead:
+            st.events.append(('branch', b, 1, ctx.loc, ctx.fr.f['name']))
+            outs.append(ctx.ret(some(I.norm(st, I.resub(st, v.fields[0]))), st))
+        return outs
+    M['core::option::Option::<T>::filter'] = m_opt_filter
+
+    for kind_ in ('any', 'all', 'find', 'position'):
+        P.append((re.compile(r'(^core::iter::Iterator|as core::iter::Iterator>)::%s$' % kind_), m_iter_search(kind_)))
+
     P.append((re.compile(r"^<core::slice::Iter(Mut)?<'_, T> as core::iter::Iterator>::next$"), m_iter_next))
     M['<core::iter::Enumerate<I> as core::iter::Iterator>::next'] = m_iter_next
 
